@@ -368,7 +368,12 @@ class Gen:
             dst = (self.myip & 0xffffff00) | self.rng.randrange(256)
         else:
             dst = self.rng.randrange(1 << 32)
-        frame = C.ip_packet(dst, bytes(self.rng.randrange(256) for _ in range(self.rng.choice([0, 10, 80, 99, 100, 101, 300, 1400, 3000, 4100, 4500, 9000]))))
+        n = self.rng.choice([0, 10, 80, 99, 100, 101, 300, 1400, 3000, 4100, 4500, 9000])
+        if self.rng.random() < 0.25 and self.h.steps and self.h.steps[-1].slots:
+            # the compressed image (transparent scheme: frame + 1 byte) is an exact multiple of some slot's fragment size
+            fs = int(self.rng.choice(list(self.h.steps[-1].slots.values()))["fs"])
+            n = min(9000, max(0, self.rng.choice([1, 2, 3]) * fs - 25 + self.rng.choice([0, 0, 0, -1, 1])))
+        frame = C.ip_packet(dst, bytes(self.rng.randrange(256) for _ in range(n)))
         if self.rng.random() < 0.05:
             frame = frame[:self.rng.randrange(0, 24)]
         self.h.send("tun " + vlib.hx(frame), {"kind": "tun", "dst": dst, "frame": frame})
